@@ -142,4 +142,15 @@ theorem delete_frame :
   @RbW.delete_frame
 end
 
+section
+open RbM
+
+/-- the used-node count: on a non-empty arena `Used()` = storage size minus free slots = live nodes of all trees plus the
+reserved slot (the invariant `NoAlias` that `insertW`, `deleteW`, `eraseW` preserve carries this accounting) -/
+theorem used_count :
+    ∀ (w : World) (h : NoAlias w) (hne : w.size ≠ 0),
+    w.size - w.gaps.length = (ids w.focus).length + w.others.length + 1 :=
+  @RbM.used_count
+end
+
 end Props.C06
